@@ -122,10 +122,21 @@ func costLabels(b []byte) costResult {
 		if err != nil {
 			return nil
 		}
+		for _, nm := range l.Labels {
+			if len(nm) > 253 && nameSizeViolation == "" {
+				nameSizeViolation = fmt.Sprintf("decoded name of %d octets (> 253) from %d input octets", len(nm), len(b))
+			}
+		}
+		if len(l.Labels) > len(b)+1 && nameSizeViolation == "" {
+			nameSizeViolation = fmt.Sprintf("%d names from %d input octets", len(l.Labels), len(b))
+		}
 		_ = l.ToBytes()
 		return l
 	})
 }
+
+// set by costLabels when a decoded label set breaks the bounds proved for the model (C09_names_size)
+var nameSizeViolation string
 
 // nesting depth of option containers in a v6 byte string (upper bound used in the property's bound)
 func v6Depth(b []byte) int { return len(b)/8 + 1 }
@@ -164,6 +175,26 @@ func familyInputs(r *Run, n int) map[string][]byte {
 		}
 		out["label-max-name-fan"] = b
 		out["v6-fqdn-max-name-fan"] = append([]byte{1, 0, 0, 1}, tlvb(39, append([]byte{0}, clip(b, 65000)...))...)
+	}
+	{ // a region that reads two ways: in sequence, names of one 63-octet label each; entered one octet later
+		// (by a pointer into the middle of a label), one unbroken chain of short labels whose 4-octet bridge
+		// labels swallow every terminator and the next length octet.  Then a fan of pointers to that chain.
+		region := dualRegion(minInt(n/2, 16000) / 65)
+		b := append([]byte{}, region...)
+		for len(b)+2 <= n {
+			b = append(b, 0xc0, 1)
+		}
+		out["label-dual-reading-fan"] = b
+		out["v6-domain-list-dual-reading-fan"] = append([]byte{1, 0, 0, 1}, tlvb(24, clip(b, 65000))...)
+		// the same with forward pointers: the fan first, the region after it (target offset < 2^14)
+		np := minInt(n/4, 8000)
+		var f []byte
+		tgt := 2*np + 1
+		for k := 0; k < np; k++ {
+			f = append(f, 0xc0|byte(tgt>>8), byte(tgt))
+		}
+		f = append(f, dualRegion(maxInt(n-len(f), 65)/65)...)
+		out["label-forward-dual-fan"] = f
 	}
 	{ // unterminated label chain
 		var b []byte
@@ -246,6 +277,34 @@ func familyInputs(r *Run, n int) map[string][]byte {
 	return out
 }
 
+// dualRegion: k blocks [63][60 octets of 4-letter labels][4][2 letters] [0]  (the last block ends its inner chain)
+func dualRegion(k int) []byte {
+	if k < 1 {
+		k = 1
+	}
+	var b []byte
+	for i := 0; i < k; i++ {
+		b = append(b, 63)
+		for j := 0; j < 12; j++ {
+			b = append(b, 4, 'a', 'b', 'c', 'd')
+		}
+		if i == k-1 {
+			b = append(b, 1, 'z', 0) // inner chain ends inside the last block
+		} else {
+			b = append(b, 4, 'x', 'y') // bridge label: 'x' 'y' + terminator + next length octet
+		}
+		b = append(b, 0)
+	}
+	return b
+}
+
+func maxInt(a, b int) int {
+	if a > b {
+		return a
+	}
+	return b
+}
+
 func clip(b []byte, n int) []byte {
 	if len(b) > n {
 		return b[:n]
@@ -309,6 +368,10 @@ func genC09(r *Run) {
 			}
 			evals++
 			before := r.OracleN
+			if nameSizeViolation != "" {
+				r.Fail("c09-name-size:"+fam, fmt.Sprintf("%s n=%d", fam, len(b)), nameSizeViolation)
+				nameSizeViolation = ""
+			}
 			checkBound(r, fam, b, res, depth)
 			if r.OracleN > before {
 				failedFam[fam] = true
